@@ -49,7 +49,7 @@ TermVerdict(pr, t) ==
   THEN LET f == pr.first[t.idx] IN
        IF ~f.det \/ f.demLA = INF THEN ""
        ELSE IF t.budget THEN "laziness"
-       ELSE IF t.v # f.v THEN (IF f.v.k = "sent" /\ t.v.k = "opaque" THEN "first:sentinel-item" ELSE "first")
+       ELSE IF t.v # f.v THEN "first"
        ELSE IF t.pulled > f.demLA THEN "laziness" ELSE ""
   ELSE IF t.kind = "all"
   THEN IF ~pr.all.det \/ pr.all.demLA = INF THEN ""
